@@ -242,6 +242,29 @@ def check_deny(ctx, tag, esz, grantable):
     ctx.expect(paths, ret=1, abort=1)
 
 
+def check_bm_usp(ctx, orders=None):
+    from specs.C04 import bm_pre
+    bs, order, destroy, dead, size = bm_pre(ctx)
+    if orders is not None:
+        ctx.assume(z3.Or(*[order == o for o in orders]))
+    p = ctx.sym("p", 64)
+    owner = [z3.And(ctx.in_region(p, bs[i], size), z3.Not(dead(i))) for i in range(3)]
+    ctx.assume(z3.Or(*owner))
+    ob = z3.If(owner[0], bs[0], z3.If(owner[1], bs[1], bs[2]))
+    n = ctx.sym("n", 64)
+    ctx.assume(n != 0)
+    end = zext(p, 128) + zext(n, 128)
+    ok = end <= zext(ob, 128) + size
+    paths = ctx.run("k_bm_usp", [bs[0], bs[1], bs[2], order, destroy, p, n])
+    for q in paths:
+        if q.status == "ret":
+            ctx.require(q, z3.And(ok, q.ret == p), "a pointer handed back with a count has that many bytes inside its own sandbox, whatever sandboxes were created and destroyed before")
+        elif q.status == "abort":
+            ctx.require(q, z3.Not(ok), "a valid request is carried out")
+    ctx.only(paths, "ret", "abort")
+    ctx.expect(paths, ret=len(orders) if orders else 6, abort=len(orders) if orders else 6)
+
+
 def jobs(tier, seed):
     src = '#include "verif_sandbox.hpp"\nusing S = B32;\n#include "C10_kernels.inc"\n'
     srcg = '#include "verif_sandbox.hpp"\nusing S = B32G;\n#include "C10_kernels.inc"\n'
@@ -273,4 +296,5 @@ def jobs(tier, seed):
             chks = [c for (ss, nm, c) in gd[i::4] if nm == sname]
             if chks:
                 out.append(Job("C10_gd_%s_%d" % (sname, i), s_, chks, native=False))
+    out.append(Job("C10_BM_usp", '#include "C10_bm.inc"\n', [dict(name="BM unverified_safe_pointer_because after create/destroy histories", fn=check_bm_usp, kw=dict(orders=(0, 3) if tier == "quick" else None), unwind=200)], native=False))
     return out
